@@ -58,7 +58,7 @@ macro_rules! owned_reply {
         let target = {
             let m = match $bench.run($conn.poll(), $id) {
                 Some(Ok(Some(m))) => m,
-                _ => panic!("machinery: request was not delivered"),
+                _ => return Some(Owned::Err("request-not-delivered".into())),
             };
             m.reply_owned::<$t, $c>()
         };
@@ -144,7 +144,7 @@ pub fn eval(c: &Case) -> CaseOut {
                     // second session (the only way the borrow checker allows)
                     let m = match bench.run(conn.poll(), id) {
                         Some(Ok(Some(m))) => m,
-                        _ => panic!("machinery: request was not delivered"),
+                        _ => return Some(Owned::Err("request-not-delivered".into())),
                     };
                     match m.reply(&b"pong"[..]) {
                         None => Owned::None,
@@ -189,6 +189,10 @@ pub fn eval(c: &Case) -> CaseOut {
         };
         let class;
         match (&topic, result) {
+            (_, Owned::Err(e)) if e == "request-not-delivered" => {
+                class = 7;
+                flag(&mut viol, "request-not-delivered", kind, format!("the valid inbound request was not delivered to the application ({:?})", c));
+            }
             (None, Owned::None) => class = 1,
             (None, Owned::Some(t, _, _)) => {
                 class = 2;
